@@ -174,8 +174,17 @@ def run(ctx):
     # (1) values with CSE off and on, both back-ends, against the spec
     r_py = scen.replay_all(ctx, scns, cse_settings=(False, True), force_ekf=True)
     c_py = scen.record_results(ctx, r_py, key_prefix="py:")
-    ncpp = 8 if quick else 150
-    r_cpp = cppcheck.replay_cpp(ctx, scns[:ncpp], cse_settings=(False, True), kind="ekf")
+    ncpp = 12 if quick else 160
+    # (some of every family)
+    fams_ = [f_ for f_ in (scns_b, scns_a, scns_r, scns_f) if f_]
+    cpp_pick = []
+    i_ = 0
+    while len(cpp_pick) < ncpp and any(i_ < len(f_) for f_ in fams_):
+        for f_ in fams_:
+            if i_ < len(f_) and len(cpp_pick) < ncpp:
+                cpp_pick.append(f_[i_])
+        i_ += 1
+    r_cpp = cppcheck.replay_cpp(ctx, cpp_pick, cse_settings=(False, True), kind="ekf")
     c_cpp = cppcheck.record(ctx, r_cpp, key_prefix="cpp:")
     # (2) translation validation of every extracted program
     res = workers.run_tasks([("props.c08", "extract", ({k: v for k, v in s.items() if not k.startswith("_")},), 600) for s in scns], procs=ctx.cores)
